@@ -749,21 +749,21 @@ def fp_drpcmanager_manager_Manager_manageStream : List String :=
     "id:Event", "id:m", "s:sfin.recv", "call:stream.ID", "id:stream", "id:ID", "call:drpcdebug.Event", 
     "id:drpcdebug", "id:Event", "id:m", "s:sem.rel", "0", "call:m.sem.Recv", "id:m", "id:sem", 
     "id:Recv", "u<-", "call:ctx.Done", "id:ctx", "id:Done", "call:m.log", "id:m", "id:log", "s:CANCEL", 
-    "id:stream", "id:String", "if", "id:m", "id:opts", "id:SoftCancel", "call:drpcdebug.Event", 
+    "id:stream", "id:String", "if", "id:m", "id:opts", "id:SoftCancel", "if", "=busy", "=err", 
+    "id:busy", "id:err", "call:stream.SendCancel", "id:stream", "id:SendCancel", "call:ctx.Err", 
+    "id:ctx", "id:Err", "!=", "id:err", "id:nil", "call:m.terminate", "id:m", "id:terminate", "id:err", 
+    "if", "id:busy", "call:m.log", "id:m", "id:log", "s:BUSY", "id:stream", "id:String", "call:m.terminate", 
+    "id:m", "id:terminate", "call:ctx.Err", "id:ctx", "id:Err", "call:stream.Cancel", "id:stream", 
+    "id:Cancel", "call:ctx.Err", "id:ctx", "id:Err", "u<-", "id:m", "id:sfin", "call:drpcdebug.Event", 
+    "id:drpcdebug", "id:Event", "id:m", "s:sfin.recv", "call:stream.ID", "id:stream", "id:ID", 
+    "call:drpcdebug.Event", "id:drpcdebug", "id:Event", "id:m", "s:sem.rel", "0", "call:m.sem.Recv", 
+    "id:m", "id:sem", "id:Recv", "if", "u!", "call:stream.Cancel", "id:stream", "id:Cancel", "call:ctx.Err", 
+    "id:ctx", "id:Err", "call:m.log", "id:m", "id:log", "s:UNFIN", "id:stream", "id:String", "call:m.terminate", 
+    "id:m", "id:terminate", "call:ctx.Err", "id:ctx", "id:Err", "call:m.log", "id:m", "id:log", 
+    "s:CLEAN", "id:stream", "id:String", "u<-", "id:m", "id:sfin", "call:drpcdebug.Event", "id:drpcdebug", 
+    "id:Event", "id:m", "s:sfin.recv", "call:stream.ID", "id:stream", "id:ID", "call:drpcdebug.Event", 
     "id:drpcdebug", "id:Event", "id:m", "s:sem.rel", "0", "call:m.sem.Recv", "id:m", "id:sem", 
-    "id:Recv", "if", "=busy", "=err", "id:busy", "id:err", "call:stream.SendCancel", "id:stream", 
-    "id:SendCancel", "call:ctx.Err", "id:ctx", "id:Err", "!=", "id:err", "id:nil", "call:m.terminate", 
-    "id:m", "id:terminate", "id:err", "if", "id:busy", "call:m.log", "id:m", "id:log", "s:BUSY", 
-    "id:stream", "id:String", "call:m.terminate", "id:m", "id:terminate", "call:ctx.Err", "id:ctx", 
-    "id:Err", "call:stream.Cancel", "id:stream", "id:Cancel", "call:ctx.Err", "id:ctx", "id:Err", 
-    "u<-", "id:m", "id:sfin", "call:drpcdebug.Event", "id:drpcdebug", "id:Event", "id:m", "s:sfin.recv", 
-    "call:stream.ID", "id:stream", "id:ID", "if", "u!", "call:stream.Cancel", "id:stream", "id:Cancel", 
-    "call:ctx.Err", "id:ctx", "id:Err", "call:m.log", "id:m", "id:log", "s:UNFIN", "id:stream", 
-    "id:String", "call:m.terminate", "id:m", "id:terminate", "call:ctx.Err", "id:ctx", "id:Err", 
-    "call:m.log", "id:m", "id:log", "s:CLEAN", "id:stream", "id:String", "u<-", "id:m", "id:sfin", 
-    "call:drpcdebug.Event", "id:drpcdebug", "id:Event", "id:m", "s:sfin.recv", "call:stream.ID", 
-    "id:stream", "id:ID", "call:drpcdebug.Event", "id:drpcdebug", "id:Event", "id:m", "s:sem.rel", 
-    "0", "call:m.sem.Recv", "id:m", "id:sem", "id:Recv"]
+    "id:Recv"]
 def fp_drpcmanager_manager_Manager_Close : List String :=
   ["call:m.terminate", "id:m", "id:terminate", "call:managerClosed.New", "id:managerClosed", "id:New", 
     "s:Close called", "call:m.sigs.stream.Wait", "id:m", "id:sigs", "id:stream", "id:Wait", "call:m.sigs.read.Wait", 
@@ -1084,6 +1084,197 @@ def fp_drpcmigrate_header_HeaderConn_Write : List String :=
     "id:didOnce", "-=", "id:n", "call:len", "id:len", "id:d", "id:header", "if", "<", "id:n", "0", 
     "=n", "id:n", "0", "return", "id:n", "id:err", "return", "call:d.Conn.Write", "id:d", "id:Conn", 
     "id:Write", "id:buf"]
+def fp_drpcstream_stream_New : List String :=
+  ["return", "call:NewWithOptions", "id:NewWithOptions", "id:ctx", "id:sid", "id:wr", "id:Options"]
+def fp_drpcstream_stream_Stream_Context : List String :=
+  ["return", "u&", "id:s", "id:ctx"]
+def fp_drpcstream_stream_Stream_Finished : List String :=
+  ["return", "call:s.sigs.fin.Signal", "id:s", "id:sigs", "id:fin", "id:Signal"]
+def fp_drpcstream_stream_Stream_ID : List String :=
+  ["if", "==", "id:s", "id:nil", "return", "0", "return", "id:s", "id:id", "id:Stream"]
+def fp_drpcstream_stream_Stream_IsFinished : List String :=
+  ["return", "call:s.sigs.fin.IsSet", "id:s", "id:sigs", "id:fin", "id:IsSet"]
+def fp_drpcstream_stream_Stream_IsTerminated : List String :=
+  ["return", "call:s.sigs.term.IsSet", "id:s", "id:sigs", "id:term", "id:IsSet"]
+def fp_drpcstream_stream_Stream_SetManualFlush : List String :=
+  ["=s.opts.ManualFlush", "id:s", "id:opts", "id:ManualFlush", "id:mf"]
+def fp_drpcstream_stream_Stream_Terminated : List String :=
+  ["return", "call:s.sigs.term.Signal", "id:s", "id:sigs", "id:term", "id:Signal"]
+def fp_drpcstream_stream_streamCtx_Done : List String :=
+  ["return", "call:s.sig.Signal", "id:s", "id:sig", "id:Signal"]
+def fp_drpcstream_stream_streamCtx_Err : List String :=
+  ["return", "call:s.sig.Err", "id:s", "id:sig", "id:Err"]
+def fp_drpcstream_stream_streamCtx_Value : List String :=
+  ["if", "&&", "!=", "id:s", "id:tr", "id:nil", "==", "id:key", "id:drpcctx", "id:TransportKey", 
+    "return", "id:s", "id:tr", "return", "call:s.Context.Value", "id:s", "id:Context", "id:Value", 
+    "id:key"]
+def fp_drpcstream_pktbuf_packetBuffer_init : List String :=
+  ["=pb.cond.L", "id:pb", "id:cond", "id:L", "u&", "id:pb", "id:mu"]
+def fp_drpcmanager_manager_New : List String :=
+  ["return", "call:NewWithOptions", "id:NewWithOptions", "id:tr", "id:Options"]
+def fp_drpcmanager_manager_Manager_Closed : List String :=
+  ["return", "call:m.sigs.term.Signal", "id:m", "id:sigs", "id:term", "id:Signal"]
+def fp_drpcmanager_manager_isConnectionReset : List String :=
+  ["id:operr", "id:net", "id:OpError", "if", "u!", "call:errors.As", "id:errors", "id:As", "id:err", 
+    "u&", "id:operr", "return", "id:false", "if", "call:errors.Is", "id:errors", "id:Is", "id:operr", 
+    "id:Err", "id:syscall", "id:ECONNRESET", "return", "id:true", "=msg", "id:msg", "call:strings.ToLower", 
+    "id:strings", "id:ToLower", "call:operr.Err.Error", "id:operr", "id:Err", "id:Error", "if", 
+    "call:strings.Contains", "id:strings", "id:Contains", "id:msg", "s:connection reset by peer", 
+    "return", "id:true", "if", "call:strings.Contains", "id:strings", "id:Contains", "id:msg", 
+    "s:connection was forcibly closed by the remote host", "return", "id:true", "if", "call:strings.Contains", 
+    "id:strings", "id:Contains", "id:msg", "call:strings.ToLower", "id:strings", "id:ToLower", 
+    "call:syscall.ECONNRESET.Error", "id:syscall", "id:ECONNRESET", "id:Error", "return", "id:true", 
+    "return", "id:false"]
+def fp_drpcmanager_streambuf_streamBuffer_init : List String :=
+  ["=sb.cond.L", "id:sb", "id:cond", "id:L", "u&", "id:sb", "id:mu"]
+def fp_drpcconn_conn_Conn_Close : List String :=
+  ["return", "call:c.man.Close", "id:c", "id:man", "id:Close"]
+def fp_drpcconn_conn_Conn_Closed : List String :=
+  ["return", "call:c.man.Closed", "id:c", "id:man", "id:Closed"]
+def fp_drpcconn_conn_Conn_Unblocked : List String :=
+  ["return", "call:c.man.Unblocked", "id:c", "id:man", "id:Unblocked"]
+def fp_drpcconn_conn_New : List String :=
+  ["return", "call:NewWithOptions", "id:NewWithOptions", "id:tr", "id:Options"]
+def fp_drpcconn_conn_NewWithOptions : List String :=
+  ["=c", "id:c", "u&", "id:Conn", "id:tr", "id:tr", "if", "id:opts", "id:CollectStats", "call:drpcopts.SetManagerStatsCB", 
+    "id:drpcopts", "id:SetManagerStatsCB", "u&", "id:opts", "id:Manager", "id:Internal", "id:c", 
+    "id:getStats", "=c.stats", "id:c", "id:stats", "call:make", "id:make", "id:string", "id:drpcstats", 
+    "id:Stats", "=c.man", "id:c", "id:man", "call:drpcmanager.NewWithOptions", "id:drpcmanager", 
+    "id:NewWithOptions", "id:tr", "id:opts", "id:Manager", "return", "id:c"]
+def fp_drpcserver_server_New : List String :=
+  ["return", "call:NewWithOptions", "id:NewWithOptions", "id:handler", "id:Options"]
+def fp_drpcserver_server_NewWithOptions : List String :=
+  ["=s", "id:s", "u&", "id:Server", "id:opts", "id:opts", "id:handler", "id:handler", "if", "id:s", 
+    "id:opts", "id:CollectStats", "call:drpcopts.SetManagerStatsCB", "id:drpcopts", "id:SetManagerStatsCB", 
+    "u&", "id:s", "id:opts", "id:Manager", "id:Internal", "id:s", "id:getStats", "=s.stats", "id:s", 
+    "id:stats", "call:make", "id:make", "id:string", "id:drpcstats", "id:Stats", "return", "id:s"]
+def fp_drpcserver_util_isTemporary : List String :=
+  ["id:nErr", "id:net", "id:Error", "if", "call:errors.As", "id:errors", "id:As", "id:err", "u&", 
+    "id:nErr", "return", "call:nErr.Temporary", "id:nErr", "id:Temporary", "return", "id:false"]
+def fp_drpcctx_tracker_NewTracker : List String :=
+  ["=ctx", "=cancel", "id:ctx", "id:cancel", "call:context.WithCancel", "id:context", "id:WithCancel", 
+    "id:ctx", "return", "u&", "id:Tracker", "id:Context", "id:ctx", "id:cancel", "id:cancel"]
+def fp_drpcctx_tracker_Tracker_Cancel : List String :=
+  ["call:t.cancel", "id:t", "id:cancel"]
+def fp_drpcenc_marshal_MarshalAppend : List String :=
+  ["if", "=ma", "=ok", "id:ma", "id:ok", "id:enc", "id:MarshalAppend", "id:buf", "id:byte", "id:msg", 
+    "id:drpc", "id:Message", "id:byte", "id:error", "id:ok", "return", "call:ma.MarshalAppend", 
+    "id:ma", "id:MarshalAppend", "id:buf", "id:msg", "=data", "=err", "id:data", "id:err", "call:enc.Marshal", 
+    "id:enc", "id:Marshal", "id:msg", "if", "!=", "id:err", "id:nil", "return", "id:nil", "id:err", 
+    "return", "call:append", "id:append", "id:buf", "id:data", "id:nil"]
+def fp_drpcwire_reader_NewReader : List String :=
+  ["return", "call:NewReaderWithOptions", "id:NewReaderWithOptions", "id:r", "id:ReaderOptions"]
+def fp_drpcwire_reader_Reader_ReadPacket : List String :=
+  ["return", "call:r.ReadPacketUsing", "id:r", "id:ReadPacketUsing", "id:nil"]
+def fp_drpcerr_err_shallowEqual : List String :=
+  ["return", "==", "call:*[]uintptr", "2", "id:uintptr", "call:unsafe.Pointer", "id:unsafe", "id:Pointer", 
+    "u&", "id:x", "call:*[]uintptr", "2", "id:uintptr", "call:unsafe.Pointer", "id:unsafe", "id:Pointer", 
+    "u&", "id:y"]
+def fp_drpcerr_err_codeErr_Error : List String :=
+  ["return", "call:c.err.Error", "id:c", "id:err", "id:Error"]
+def fp_drpcpool_pool_New : List String :=
+  ["return", "u&", "id:Pool", "id:K", "id:V", "id:opts", "id:opts", "id:entries", "call:make", 
+    "id:make", "id:K", "id:list", "id:K", "id:V"]
+def fp_drpcpool_pool_Pool_Get : List String :=
+  ["return", "u&", "id:poolConn", "id:K", "id:V", "id:key", "id:key", "id:pool", "id:p", "id:dial", 
+    "id:dial"]
+def fp_drpcpool_doc_closed : List String :=
+  ["select", "u<-", "id:ch", "return", "id:true", "return", "id:false"]
+def fp_drpcpool_entry_entry_globalList : List String :=
+  ["return", "u&", "id:e", "id:global"]
+def fp_drpcpool_entry_entry_localList : List String :=
+  ["return", "u&", "id:e", "id:local"]
+def fp_drpcpool_conn_poolConn_Closed : List String :=
+  ["return", "call:p.done.Get", "id:p", "id:done", "id:Get"]
+def fp_drpcpool_conn_streamWrapper_Context : List String :=
+  ["return", "u&", "id:s", "id:ctx"]
+def fp_drpcpool_conn_streamWrapperContext_Done : List String :=
+  ["return", "call:s.done.Get", "id:s", "id:done", "id:Get"]
+def fp_drpcmigrate_dial_DialWithHeader : List String :=
+  ["=conn", "=err", "id:conn", "id:err", "call:?.DialContext", "u&", "id:HeaderDialer", "id:Header", 
+    "id:header", "id:DialContext", "id:ctx", "id:network", "id:address", "if", "!=", "id:err", 
+    "id:nil", "return", "id:nil", "id:err", "return", "id:conn", "id:nil"]
+def fp_drpcmigrate_dial_HeaderDialer_Dial : List String :=
+  ["return", "call:d.DialContext", "id:d", "id:DialContext", "call:context.Background", "id:context", 
+    "id:Background", "id:network", "id:address"]
+def fp_drpcmigrate_dial_HeaderDialer_DialContext : List String :=
+  ["=conn", "=err", "id:conn", "id:err", "call:d.Dialer.DialContext", "id:d", "id:Dialer", "id:DialContext", 
+    "id:ctx", "id:network", "id:address", "if", "!=", "id:err", "id:nil", "return", "id:nil", "id:err", 
+    "return", "call:NewHeaderConn", "id:NewHeaderConn", "id:conn", "id:d", "id:Header", "id:nil"]
+def fp_drpcmigrate_header_NewHeaderConn : List String :=
+  ["return", "u&", "id:HeaderConn", "id:Conn", "id:conn", "id:header", "id:header"]
+def fp_drpcmigrate_listener_newListener : List String :=
+  ["return", "u&", "id:listener", "id:addr", "id:addr", "id:conns", "call:make", "id:make", "id:net", 
+    "id:Conn", "id:done", "call:make", "id:make"]
+def fp_drpcmigrate_mux_NewListenMux : List String :=
+  ["=addr", "id:addr", "call:base.Addr", "id:base", "id:Addr", "return", "u&", "id:ListenMux", 
+    "id:base", "id:base", "id:prefixLen", "id:prefixLen", "id:addr", "id:addr", "id:def", "call:newListener", 
+    "id:newListener", "id:addr", "id:routes", "call:make", "id:make", "id:string", "id:listener", 
+    "id:done", "call:make", "id:make"]
+def fp_drpchttp_context_Context : List String :=
+  ["return", "call:buildContext", "id:buildContext", "call:req.Context", "id:req", "id:Context", 
+    "index", "id:req", "id:Header", "s:X-Drpc-Metadata"]
+def fp_drpchttp_encoding_JSONMarshal : List String :=
+  ["if", "=enc", "=ok", "id:enc", "id:ok", "id:enc", "id:JSONMarshal", "id:msg", "id:drpc", "id:Message", 
+    "id:byte", "id:error", "id:ok", "return", "call:enc.JSONMarshal", "id:enc", "id:JSONMarshal", 
+    "id:msg", "=buf", "=err", "id:buf", "id:err", "call:enc.Marshal", "id:enc", "id:Marshal", "id:msg", 
+    "if", "!=", "id:err", "id:nil", "return", "id:nil", "id:err", "return", "call:json.Marshal", 
+    "id:json", "id:Marshal", "id:buf"]
+def fp_drpchttp_encoding_JSONUnmarshal : List String :=
+  ["if", "=enc", "=ok", "id:enc", "id:ok", "id:enc", "id:JSONUnmarshal", "id:buf", "id:byte", 
+    "id:msg", "id:drpc", "id:Message", "id:error", "id:ok", "return", "call:enc.JSONUnmarshal", 
+    "id:enc", "id:JSONUnmarshal", "id:buf", "id:msg", "id:data", "id:byte", "if", "=err", "id:err", 
+    "call:json.Unmarshal", "id:json", "id:Unmarshal", "id:buf", "u&", "id:data", "!=", "id:err", 
+    "id:nil", "return", "id:err", "return", "call:enc.Unmarshal", "id:enc", "id:Unmarshal", "id:data", 
+    "id:msg"]
+def fp_drpchttp_encoding_base64Read : List String :=
+  ["return", "id:r", "id:io", "id:Reader", "id:byte", "id:error", "return", "call:rf", "id:rf", 
+    "call:base64.NewDecoder", "id:base64", "id:NewDecoder", "id:base64", "id:StdEncoding", "id:r"]
+def fp_drpchttp_encoding_normalWrite : List String :=
+  ["=_", "=err", "id:_", "id:err", "call:w.Write", "id:w", "id:Write", "id:buf", "return", "id:err"]
+def fp_drpchttp_encoding_protoMarshal : List String :=
+  ["return", "call:enc.Marshal", "id:enc", "id:Marshal", "id:msg"]
+def fp_drpchttp_encoding_protoUnmarshal : List String :=
+  ["return", "call:enc.Unmarshal", "id:enc", "id:Unmarshal", "id:buf", "id:msg"]
+def fp_drpchttp_handler_NewWithOptions : List String :=
+  ["=opts", "id:opts", "id:options", "id:protocols", "call:defaultProtocols", "id:defaultProtocols", 
+    "for", "id:_", "id:o", "id:os", "call:o.apply", "id:o", "id:apply", "u&", "id:opts", "return", 
+    "id:wrapper", "id:handler", "id:handler", "id:opts", "id:opts"]
+def fp_drpchttp_options_WithProtocol : List String :=
+  ["return", "id:Option", "id:apply", "id:opts", "id:options", "=opts.protocols", "index", "id:opts", 
+    "id:protocols", "id:contentType", "id:pr"]
+def fp_drpchttp_options_defaultProtocols : List String :=
+  ["return", "id:string", "id:Protocol", "s:*", "id:twirpProtocol", "id:ct", "s:application/proto", 
+    "id:marshal", "id:protoMarshal", "id:unmarshal", "id:protoUnmarshal", "s:application/proto", 
+    "id:twirpProtocol", "id:ct", "s:application/proto", "id:marshal", "id:protoMarshal", "id:unmarshal", 
+    "id:protoUnmarshal", "s:application/json", "id:twirpProtocol", "id:ct", "s:application/json", 
+    "id:marshal", "id:JSONMarshal", "id:unmarshal", "id:JSONUnmarshal", "s:application/grpc-web+proto", 
+    "id:grpcWebProtocol", "id:ct", "s:application/grpc-web+proto", "id:read", "id:grpcRead", "id:write", 
+    "id:normalWrite", "id:marshal", "id:protoMarshal", "id:unmarshal", "id:protoUnmarshal", "s:application/grpc-web+json", 
+    "id:grpcWebProtocol", "id:ct", "s:application/grpc-web+json", "id:read", "id:grpcRead", "id:write", 
+    "id:normalWrite", "id:marshal", "id:JSONMarshal", "id:unmarshal", "id:JSONUnmarshal", "s:application/grpc-web-text+proto", 
+    "id:grpcWebProtocol", "id:ct", "s:application/grpc-web-text+proto", "id:read", "call:base64Read", 
+    "id:base64Read", "id:grpcRead", "id:write", "call:base64Write", "id:base64Write", "id:normalWrite", 
+    "id:marshal", "id:protoMarshal", "id:unmarshal", "id:protoUnmarshal", "s:application/grpc-web-text+json", 
+    "id:grpcWebProtocol", "id:ct", "s:application/grpc-web-text+json", "id:read", "call:base64Read", 
+    "id:base64Read", "id:grpcRead", "id:write", "call:base64Write", "id:base64Write", "id:normalWrite", 
+    "id:marshal", "id:JSONMarshal", "id:unmarshal", "id:JSONUnmarshal"]
+def fp_drpchttp_protocol_grpc_web_grpcWebProtocol_NewStream : List String :=
+  ["call:rw.Header().Set", "call:rw.Header", "id:rw", "id:Header", "id:Set", "s:Content-Type", 
+    "id:gwp", "id:ct", "return", "u&", "id:grpcWebStream", "id:ctx", "call:req.Context", "id:req", 
+    "id:Context", "id:gwp", "id:gwp", "id:in", "id:req", "id:Body", "id:rw", "id:rw"]
+def fp_drpchttp_protocol_grpc_web_grpcWebStream_Close : List String :=
+  ["return", "call:gws.in.Close", "id:gws", "id:in", "id:Close"]
+def fp_drpchttp_protocol_grpc_web_grpcWebStream_MsgRecv : List String :=
+  ["=buf", "=err", "id:buf", "id:err", "call:gws.gwp.read", "id:gws", "id:gwp", "id:read", "id:gws", 
+    "id:in", "if", "!=", "id:err", "id:nil", "return", "id:err", "return", "call:gws.gwp.unmarshal", 
+    "id:gws", "id:gwp", "id:unmarshal", "id:buf", "id:msg", "id:enc"]
+def fp_drpchttp_protocol_twirp_twirpProtocol_NewStream : List String :=
+  ["call:rw.Header().Set", "call:rw.Header", "id:rw", "id:Header", "id:Set", "s:Content-Type", 
+    "id:tp", "id:ct", "return", "u&", "id:twirpStream", "id:ctx", "call:req.Context", "id:req", 
+    "id:Context", "id:tp", "id:tp", "id:body", "id:req", "id:Body", "id:rw", "id:rw"]
+def fp_drpcmux_mux_New : List String :=
+  ["return", "u&", "id:Mux", "id:rpcs", "call:make", "id:make", "id:string", "id:rpcData"]
 def fp_drpcctx_tracker_Tracker_Run : List String :=
   ["call:t.wg.Add", "id:t", "id:wg", "id:Add", "1", "go", "call:t.track", "id:t", "id:track", 
     "id:cb"]
